@@ -47,7 +47,7 @@ PROPS = {
         ],
     },
     "C06": {
-        "level": "proof", "prove": True, "ground": [],
+        "level": "proof", "prove": True, "ground": ["idsAreIDCH", "noRefPrefix"],
         "bounded": {"search": "C06", "quick": "8s", "thorough": "120s",
                     "what": "'every returned string extracts to itself' and 'the returned list satisfies the expression' relate two API calls and are not under contract; they are checked by execution against the reference oracle on enumerated expressions (BOUNDED)"},
         "assumptions": DEFS_BY_CODE + [
@@ -56,12 +56,15 @@ PROPS = {
         ],
     },
     "C07": {
-        "level": "proof", "prove": True, "ground": [],
+        "level": "proof", "prove": True, "ground": ["idsAreIDCH", "noRefPrefix"],
         "bounded": {"search": "C07", "quick": "6s", "thorough": "60s",
                     "what": "permutation / duplication invariance and monotonicity of the verdict, checked by execution on enumerated lists (BOUNDED cross-check of the stated meta-lemmas)"},
         "assumptions": DEFS_BY_CODE + [
-            "proved: stringsToNodes yields, in order, the tree of every entry; the in-place sort+compaction keeps in the full-length slice exactly the canonical strings that were there; the verdict is sem(tree) with 'covered' = some node of that slice matches (C01)",
-            "stated, not mechanised: equal canonical strings denote equal terms (reconT is injective on terms over id characters; the design prototype discharges it with cvc5), an existential over the entries is invariant under permutation and duplication and monotone under extension, and sem is monotone in the covered predicate",
+            "proved (code): stringsToNodes yields, in order, the term of every entry; every node carries listed ids / id-character names (representation invariant, established by the scanner and parser contracts); the in-place sort+compaction keeps in the full-length slice exactly the canonical strings AND exactly the terms that were there; hence (Satisfies, clause verdictOfTheSet) the verdict is sem(tree) with 'covered(t)' = 'some ENTRY of the allowed list denotes a term matching t' - an existential over the entries",
+            "proved (code): Satisfies' clause verdictIsSemL: err == nil ==> result == semL(tree of the expression, allowed list), a closed spec function of the expression's tree and the list's entries (no reference to the nodes, their order or the compaction)",
+            "proved (lemmas, pure SMT): equal canonical strings of well-formed leaves denote equal terms (reconInjective; its five string cases are decided by cvc5 in the thorough tier and assumed in the quick tier), a leaf with listed ids is well-formed (from the table hypotheses idsAreIDCH / noRefPrefix, ground-evaluated on every run)",
+            "proved (lemmas, structural induction on the ghost tree by cvc5 --quant-ind, a trusted feature of that back end): sem with 'covered' := coveredL is semL (semIsSemL); if every term denoted by an entry of list A is denoted by an entry of list B then semL(t, A) ==> semL(t, B) (verdictMonotone: adding entries never turns satisfied into not satisfied); lists denoting the same set of terms give the same verdict (verdictOfSet: reordering, repeating, re-spelling an entry with the same term)",
+            "not mechanised: that a re-spelled entry (letter case of a listed id, surrounding spaces or parentheses) denotes the same term is the lexical level of C05 / C09 (bounded there); it is cross-checked here by the bounded execution",
         ],
     },
     "C08": {
